@@ -112,6 +112,10 @@ def run_unit(unit, tier='quick'):
                 reg = asm.region_of(ln)
                 if reg:
                     break
+        if e['code']:
+            # a rustc error (type/borrow/trait), not a verification condition: the assembled unit is broken
+            undecided.append('verus %s: rustc error %s: %s (line %d)' % (unit, e['code'], e['kind'], e['line']))
+            continue
         if re.search(r'rlimit|resource limit|timed out|solver (error|crashed)', e['kind'], re.I):
             undecided.append('verus %s: %s at line %d' % (unit, e['kind'], e['line']))
             continue
